@@ -208,6 +208,16 @@ def run(chk, repo):
            f"the Sec-termination loop reads the untruncated `seq` at {stale}: validity / emission of the truncated peptide is decided on the wrong sequence",
            key=mt.qual + '::stale-seq-in-sec-loop', fn=mt.qual)
 
+    chk.rule('C09.l', 'R-DRAIN: every selenocysteine of the peptide gets its truncated form examined (the Sec loop is never abandoned)', 1)
+    chk.clauses.append('C09.l the loop over the Sec positions of a peptide has no break / return: a truncation that is out of the size range does not hide the later ones (they are longer)')
+    exits_ = [n for n in ast.walk(sec_loop) if isinstance(n, (ast.Break, ast.Return))] if sec_loop is not None else []
+    inner = {id(x) for l2 in (ast.walk(sec_loop) if sec_loop is not None else []) if isinstance(l2, (ast.For, ast.While)) and l2 is not sec_loop for x in ast.walk(l2) if isinstance(x, ast.Break)}
+    exits_ = [n for n in exits_ if id(n) not in inner]
+    chk.ob('C09.l', 'no break / return leaves `for sec in selenocysteines`', repo.loc(mt, exits_[0]) if exits_ else (repo.loc(mt, sec_loop) if sec_loop else mt.where),
+           sec_loop is not None and not exits_,
+           f"the Sec-termination loop is left early at {[repo.loc(mt, n) for n in exits_]}: truncations at later Sec positions are longer, so valid Sec-terminated peptides are never examined",
+           key=mt.qual + '::sec-loop-exhaustive', fn=mt.qual)
+
     chk.rule('C09.f', 'R-GUARD: the full form and the Met-cleaved form are emitted independently (each under its own validity flag only)', 4)
     from sa import sem
     nmt = sem.nf(repo, mt)
